@@ -678,6 +678,110 @@ func bigFileOpenRelease(c *ctx) string {
 			c.Count("big_file_open_release_sequences")
 		}
 	}
+	// reference operations from inside a stored-field visitor (a holder that pins the segment while it
+	// copies a value out), with a deadline
+	{
+		s, err := zh.Plugin.Open(path)
+		if err != nil {
+			return "open failed: " + err.Error()
+		}
+		seg := s.(*zap.Segment)
+		done := make(chan string, 1)
+		go func() {
+			bad := ""
+			defer func() {
+				if r := recover(); r != nil {
+					bad = fmt.Sprintf("PANIC: %v", r)
+				}
+				done <- bad
+			}()
+			for d := uint64(0); d < 20 && bad == ""; d++ {
+				calls := 0
+				err := seg.VisitStoredFields(d, func(field string, typ byte, val []byte, pos []uint64) bool {
+					calls++
+					seg.AddRef()
+					if e := seg.DecRef(); e != nil {
+						bad = "DecRef inside the visitor: " + e.Error()
+					}
+					return true
+				})
+				if err != nil || calls == 0 {
+					bad = fmt.Sprintf("VisitStoredFields(%d) with a visitor that takes and drops a reference: %d callbacks, err %v", d, calls, err)
+				}
+			}
+		}()
+		select {
+		case bad := <-done:
+			if bad != "" {
+				seg.Close()
+				return bad
+			}
+		case <-time.After(15 * time.Second):
+			return "a stored-field visitor that calls AddRef and DecRef on the segment it is visiting has not returned after 15 s (the reference count never reached zero)"
+		}
+		if err := seg.Close(); err != nil {
+			return "Close after the visits: " + err.Error()
+		}
+		c.Count("reference_operations_inside_a_visitor")
+	}
+	// several goroutines open the same big file by path, read, take and drop references and close,
+	// all at once: every handle reads correctly until its own last release, which reports no error
+	for round := 0; round < c.n(30, 600); round++ {
+		var wg sync.WaitGroup
+		errs := make(chan string, 8)
+		for g := 0; g < 4; g++ {
+			wg.Add(1)
+			go func(g int) {
+				defer wg.Done()
+				defer func() {
+					if r := recover(); r != nil {
+						errs <- fmt.Sprintf("PANIC: %v", r)
+					}
+				}()
+				s, err := zh.Plugin.Open(path)
+				if err != nil {
+					errs <- "Open: " + err.Error()
+					return
+				}
+				seg := s.(*zap.Segment)
+				read := func(when string) bool {
+					d := uint64((g*131 + round*17) % 3000)
+					id, err := seg.DocID(d)
+					if err != nil || string(id) != fmt.Sprintf("big%05d", d) {
+						errs <- fmt.Sprintf("%s: DocID(%d) = %q (err %v)", when, d, id, err)
+						return false
+					}
+					return true
+				}
+				if !read("after Open") {
+					return
+				}
+				seg.AddRef()
+				if !read("after AddRef") {
+					return
+				}
+				if err := seg.DecRef(); err != nil {
+					errs <- "DecRef: " + err.Error()
+					return
+				}
+				if !read("after DecRef") {
+					return
+				}
+				if err := seg.Close(); err != nil {
+					errs <- "final Close: " + err.Error()
+				}
+			}(g)
+		}
+		wg.Wait()
+		close(errs)
+		for e := range errs {
+			return fmt.Sprintf("four goroutines each open the same %d-byte file by path, read, AddRef, read, DecRef, read and Close, at the same time (round %d)\n%s", fi.Size(), round, e)
+		}
+		if mp, fd := mappedAndFd(path); mp || fd {
+			return fmt.Sprintf("after four goroutines opened and fully released the same file (round %d) it is still mapped=%v / its descriptor open=%v", round, mp, fd)
+		}
+		c.Count("concurrent_open_release_rounds")
+	}
 	// and it still opens and reads
 	s, err := zh.Plugin.Open(path)
 	if err != nil {
